@@ -196,9 +196,13 @@ pub fn decompress_async<'a>(
         Compression::Brotli => Ok(Box::new(AsyncBrotliDecoder::new(BufReader::new(
             compressed_data,
         )))),
-        Compression::ZStd => Ok(Box::new(AsyncZstdDecoder::new(BufReader::new(
-            compressed_data,
-        )))),
+        Compression::ZStd => {
+            // a zstd stream may consist of several frames; read all of them, like the
+            // synchronous decoder does
+            let mut decoder = AsyncZstdDecoder::new(BufReader::new(compressed_data));
+            decoder.multiple_members(true);
+            Ok(Box::new(decoder))
+        }
     }
 }
 
